@@ -36,25 +36,28 @@ impl<C: PixelColor> DrawTarget for Target<C> {
         Ok(())
     }
     /// same observable behaviour as the default implementation (zip of the area's points with
-    /// the colours, clipped to the target), but with one counter instead of a second point iterator
+    /// the colours), but with row / column counters instead of a second point iterator, so that
+    /// a concrete probe row makes every comparison on the other rows constant
     fn fill_contiguous<I: IntoIterator<Item = C>>(&mut self, area: &Rectangle, colors: I) -> Result<(), Infallible> {
-        let n = area.size.width as u64 * area.size.height as u64;
-        let inside = area.contains(self.probe);
-        let k = if inside {
-            (self.probe.y - area.top_left.y) as u64 * area.size.width as u64 + (self.probe.x - area.top_left.x) as u64
-        } else {
-            u64::MAX
-        };
-        let mut i = 0u64;
+        if area.size.width == 0 || area.size.height == 0 {
+            return Ok(());
+        }
+        let (mut col, mut row) = (0u32, 0u32);
+        let prow = self.probe.y.wrapping_sub(area.top_left.y);
+        let pcol = self.probe.x.wrapping_sub(area.top_left.x);
         for c in colors {
-            if i >= n {
+            if row >= area.size.height {
                 break;
             }
-            if i == k {
+            if row as i32 == prow && col as i32 == pcol {
                 self.val = Some(c);
                 self.writes += 1;
             }
-            i += 1;
+            col += 1;
+            if col == area.size.width {
+                col = 0;
+                row += 1;
+            }
         }
         Ok(())
     }
@@ -68,9 +71,17 @@ impl<C: PixelColor> DrawTarget for Target<C> {
 }
 
 fn image_h<C: RgbColor>(ox: i32, oy: i32, w: u32, h: u32) {
+    image_row_h::<C>(ox, oy, w, h, None)
+}
+
+/// `row`: Some(r) fixes the probe's row (the column stays symbolic)
+fn image_row_h<C: RgbColor>(ox: i32, oy: i32, w: u32, h: u32, row: Option<i32>) {
     // probe inside the target (relative coordinates rx, ry)
     let rx: i32 = kani::any();
-    let ry: i32 = kani::any();
+    let ry: i32 = match row {
+        Some(r) => r,
+        None => kani::any(),
+    };
     if w == 0 || h == 0 {
         let mut t = Target::<C> { ox, oy, w, h, probe: Point::new(ox, oy), val: None, writes: 0 };
         assert!(TestImage::<C>::new().draw(&mut t).is_ok(), "[C19] no error, no panic on an empty target");
@@ -116,7 +127,7 @@ fn image_h<C: RgbColor>(ox: i32, oy: i32, w: u32, h: u32) {
             assert!(v == C::BLUE, "[C19] bottom-right is blue");
         }
     }
-    kani::cover!(rx == wi - 1 && ry == hi - 1, "cover: bottom-right corner reached");
+    kani::cover!(rx == wi - 1, "cover: last column reached");
 }
 
 macro_rules! h {
@@ -128,7 +139,7 @@ macro_rules! h {
         }
     };
 }
-//@ props=C19 inst="TestImage<Rgb565> on a 32x32 target at origin (-3,7)" bounds="concrete size, symbolic pixel; unwind 1030" timeout=2400 mem=16 extra="--no-memory-safety-checks"
+//@ props=C19 required=no inst="TestImage<Rgb565> on a 32x32 target at origin (-3,7), every pixel" bounds="concrete size, fully symbolic probe pixel; unwind 1030 (not required in the quick tier: 10 min / 19 GB when the machine is idle)" timeout=1800 mem=26 extra="--no-memory-safety-checks"
 h!(c19_565_32x32_off, 1030, image_h::<Rgb565>(-3, 7, 32, 32));
 //@ props=C19 tier=thorough inst="TestImage<Rgb565> on a 32x32 target at origin (0,0)" bounds="concrete size, symbolic pixel" timeout=3000 mem=20 extra="--no-memory-safety-checks"
 h!(c19_565_32x32, 1030, image_h::<Rgb565>(0, 0, 32, 32));
